@@ -384,7 +384,7 @@ class AsyncRun:
             self.event("Gate", r=st[1], gate=st[2])
         elif kind in ("tick", "advance"):
             self.loop.advance_to(st[1])
-            self.snapshot("Tick", t=st[1])
+            self.snapshot("Tick", t=st[1], injected=bool(getattr(self, "injecting", False)))
         elif kind in ("cancel", "cancel_if_live"):
             name, style = st[1], st[2]
             t = self.tasks.get(name)
@@ -472,8 +472,10 @@ class AsyncRun:
                 return
             pre = self.inject.pop(self.pos, None)
             if pre:
+                self.injecting = True
                 for st in pre:
                     self.apply(st)
+                self.injecting = False
             n_ev = len(self.events)
             t = self.loop.step()
             if t is False:
